@@ -39,7 +39,7 @@ import re
 # See http://stackoverflow.com/questions/2532053/validate-a-hostname-string
 # Note underscores are valid in domain names, but strictly invalid in host
 # names.  We ignore that distinction.
-PROTOCOL_REGEX = re.compile(r'[A-Za-z][A-Za-z0-9+-.]+\Z')
+PROTOCOL_REGEX = re.compile(r'[A-Za-z][A-Za-z0-9+.-]+\Z')
 LABEL_REGEX = re.compile(r'^[a-z0-9_]([a-z0-9-_]{0,61}[a-z0-9_])?\Z', re.IGNORECASE | re.ASCII)
 NUMERIC_REGEX = re.compile(r'[0-9]+\Z')
 
